@@ -7,11 +7,13 @@ CFG = dict(
     props="Props/C20.v",
     theorems=["C20_chain", "C20_chain_stream", "C20_chain_empty", "C20_chain_order", "C20_chain_order_stream",
               "C20_chain_transform", "C20_site_none", "C20_site_single", "C20_site_chain", "C20_client_site"],
-    imports=["Model.Chain", "Check.C20c"],
+    imports=["Model.Chain", "Model.Stats", "Check.C20c"],
     case_type="c20case",
     find_bad_from="find_bad_from",
     go_tags="st",
-    rigs=[dict(test="TestC20Chain", timeout_quick=300, timeout_thorough=1200)],
+    rigs=[dict(test="TestC20Chain", timeout_quick=300, timeout_thorough=1200),
+          dict(test="TestC20Stats", timeout_quick=300, timeout_thorough=1200),
+          dict(test="TestC20E2E", timeout_quick=300, timeout_thorough=1200)],
     reason_text={"1": "implementation output differs from the Gallina model of the code (Model/Chain.v get_chain / chain; Model/Stats.v)",
                  "2": "implementation violates the specification: the observed calls are not the nesting in registration order (Check/C20c.v run_nest)",
                  "3": "a stage or the handler did not run exactly once, in order (Check/C20c.v spec_once)"},
